@@ -53,9 +53,8 @@ VARIABLES
     oroot,    \* root id of the original (0 = nothing loaded)
     croot,    \* root id of the copy (0 = not yet created)
     proto,    \* "none" | "pickle" | "deepcopy" | "copy"
-    stack,    \* reconstruction frames [src, dst, i, st]: dst is being rebuilt from src, i children attached so far,
-              \* st = the state dict has been applied
-    ret,      \* id of the child copy that has just been completed and waits to be attached (0 = none)
+    stack,    \* reconstruction frames [src, dst, i, st, rdy]: dst is being rebuilt from src, i children attached so far,
+              \* st = the state dict has been applied, rdy = complete children waiting to be attached
     status,   \* "ok" | "ValueError"
     phase,    \* "pick" | "ready" | "copying" | "copied"
     nmut, nedit,
@@ -64,7 +63,7 @@ VARIABLES
     fired,    \* ghost: deviation switches that made a difference
     hist      \* ghost: which documents the tree came from (hidden from the fingerprint by the VIEW)
 
-cvars == <<heap, oroot, croot, proto, stack, ret, status, phase, nmut, nedit, last, otree, fired, hist>>
+cvars == <<heap, oroot, croot, proto, stack, status, phase, nmut, nedit, last, otree, fired, hist>>
 
 ----------------------------------------------------------------------------
 \* heap <-> nested records
@@ -127,7 +126,7 @@ Iter(c) == IF Mut("IterChildMap") THEN c.kids ELSE c.py
 
 ----------------------------------------------------------------------------
 Init ==
-    /\ heap = <<>> /\ oroot = 0 /\ croot = 0 /\ proto = "none" /\ stack = <<>> /\ ret = 0
+    /\ heap = <<>> /\ oroot = 0 /\ croot = 0 /\ proto = "none" /\ stack = <<>>
     /\ status = "ok" /\ phase = "pick" /\ nmut = 0 /\ nedit = 0
     /\ last = [a |-> "Init", side |-> "", id |-> 0]
     /\ otree = <<>> /\ fired = {} /\ hist = <<>>
@@ -137,7 +136,7 @@ LoadTree(t, h) ==
     /\ phase = "pick"
     /\ heap' = LoadAt(t, 1) /\ oroot' = 1 /\ phase' = "ready" /\ hist' = h
     /\ last' = [a |-> "Load", side |-> "", id |-> 0]
-    /\ UNCHANGED <<croot, proto, stack, ret, status, nmut, nedit, otree, fired>>
+    /\ UNCHANGED <<croot, proto, stack, status, nmut, nedit, otree, fired>>
 
 ----------------------------------------------------------------------------
 \* edits of a list of the original before it is copied (list.py:94-96, 109-113)
@@ -154,7 +153,7 @@ EditAppend(id) ==
     /\ LET c == heap[id]  nid == NextId(heap)  e == <<IKey(Len(c.py)), nid>>
        IN heap' = [heap EXCEPT ![id].kids = Append(@, e), ![id].py = Append(@, e)] @@ (nid :> NewChildCell(c, FreshLeaf))
     /\ nedit' = nedit + 1 /\ last' = [a |-> "EditAppend", side |-> "orig", id |-> id]
-    /\ UNCHANGED <<oroot, croot, proto, stack, ret, status, phase, nmut, otree, fired, hist>>
+    /\ UNCHANGED <<oroot, croot, proto, stack, status, phase, nmut, otree, fired, hist>>
 
 ShiftKeys(kids, pos) == [i \in 1..Len(kids) |-> <<IF kids[i][1].n >= pos THEN IKey(kids[i][1].n + 1) ELSE kids[i][1], kids[i][2]>>]
 InsertAt(s, pos, e) == SubSeq(s, 1, pos) \o <<e>> \o SubSeq(s, pos + 1, Len(s))     \* pos = number of entries before e
@@ -169,76 +168,85 @@ EditInsert(id, pos) ==
            py2 == [i \in 1..Len(py1) |-> <<IKey(i - 1), py1[i][2]>>]
        IN heap' = [heap EXCEPT ![id].kids = kids2, ![id].py = py2] @@ (nid :> NewChildCell(c, FreshLeaf))
     /\ nedit' = nedit + 1 /\ last' = [a |-> "EditInsert", side |-> "orig", id |-> id]
-    /\ UNCHANGED <<oroot, croot, proto, stack, ret, status, phase, nmut, otree, fired, hist>>
+    /\ UNCHANGED <<oroot, croot, proto, stack, status, phase, nmut, otree, fired, hist>>
 
 ----------------------------------------------------------------------------
 \* the reconstruction machine
 
 Top == stack[Len(stack)]
 SetTop(f) == [stack EXCEPT ![Len(stack)] = f]
-Pop == SubSeq(stack, 1, Len(stack) - 1)
 
 \* the state dict is applied first (copy) or last (pickle)
 StateFirst == proto \in {"deepcopy", "copy"}
-Restored(f) == f.st
 \* copy.copy and the mutation ShallowChildren hand the ORIGINAL's children to the new container
 Shares == proto = "copy" \/ Mut("ShallowChildren")
+NKids(f) == Len(Iter(heap[f.src]))
+
+\* the next child may be prepared: copy._reconstruct prepares and attaches one item at a time (after the state);
+\* pickle saves ALL items of a container between MARK and APPENDS / SETITEMS: every child is complete before the
+\* first one is attached
+MayPrepare(f) == /\ f.i + Len(f.rdy) < NKids(f)
+                 /\ (StateFirst => f.st /\ f.rdy = <<>>)
+MayAttach(f)  == /\ f.rdy # <<>>
+                 /\ (~StateFirst => f.i + Len(f.rdy) = NKids(f))
 
 StartCopy(p) ==
     /\ phase = "ready" /\ p \in Protocols
     /\ proto' = p /\ phase' = "copying" /\ otree' = TreeOf(heap, oroot)
     /\ last' = [a |-> "StartCopy", side |-> "", id |-> 0]
-    /\ UNCHANGED <<heap, oroot, croot, stack, ret, status, nmut, nedit, fired, hist>>
+    /\ UNCHANGED <<heap, oroot, croot, stack, status, nmut, nedit, fired, hist>>
 
 \* Recreate(cls): _recreate(type(self)) for a container, cls(value) for a scalar: a new object without the
 \* original's attributes.  (Seeded mutant m1 = mutation StateBeforeGuard: _recreate runs ConfigNode.__init__,
 \* the blank container HAS default attributes, so the hasattr guards no longer hold anything back.)
 Recreate ==
-    /\ phase = "copying" /\ ret = 0 /\ status = "ok"
-    /\ LET src == IF stack = <<>> THEN oroot ELSE Iter(heap[Top.src])[Top.i + 1][2]
+    /\ phase = "copying" /\ status = "ok"
+    /\ LET src == IF stack = <<>> THEN oroot ELSE Iter(heap[Top.src])[Top.i + Len(Top.rdy) + 1][2]
            nid == NextId(heap)
            k   == heap[src].n.k
            cell == IF Mut("StateBeforeGuard") /\ k \in ComposedKinds
                    THEN Cell(DefaultAttrs(k), <<>>, <<>>, TRUE) ELSE Blank(k, heap[src].n.v)
        IN /\ \/ stack = <<>> /\ croot = 0
-             \/ stack # <<>> /\ Top.i < Len(Iter(heap[Top.src])) /\ (StateFirst => Restored(Top)) /\ ~Shares
+             \/ stack # <<>> /\ MayPrepare(Top) /\ ~Shares
           /\ heap' = heap @@ (nid :> cell)
-          /\ stack' = Append(stack, [src |-> src, dst |-> nid, i |-> 0, st |-> FALSE])
+          /\ stack' = Append(stack, [src |-> src, dst |-> nid, i |-> 0, st |-> FALSE, rdy |-> <<>>])
           /\ croot' = IF stack = <<>> THEN nid ELSE croot
           /\ last' = [a |-> "Recreate", side |-> "copy", id |-> nid]
-    /\ UNCHANGED <<oroot, proto, ret, status, phase, nmut, nedit, otree, fired, hist>>
+    /\ UNCHANGED <<oroot, proto, status, phase, nmut, nedit, otree, fired, hist>>
 
 \* copy.copy: the child object itself is handed over
 ShareChild ==
-    /\ phase = "copying" /\ ret = 0 /\ status = "ok" /\ Shares
-    /\ stack # <<>> /\ Top.i < Len(Iter(heap[Top.src])) /\ (StateFirst => Restored(Top))
-    /\ ret' = Iter(heap[Top.src])[Top.i + 1][2]
+    /\ phase = "copying" /\ status = "ok" /\ Shares
+    /\ stack # <<>> /\ MayPrepare(Top)
+    /\ stack' = SetTop([Top EXCEPT !.rdy = Append(@, Iter(heap[Top.src])[Top.i + Len(Top.rdy) + 1][2])])
     /\ last' = [a |-> "ShareChild", side |-> "copy", id |-> Top.dst]
-    /\ UNCHANGED <<heap, oroot, croot, proto, stack, status, phase, nmut, nedit, otree, fired, hist>>
+    /\ UNCHANGED <<heap, oroot, croot, proto, status, phase, nmut, nedit, otree, fired, hist>>
 
-\* after an action that completes the top frame: pop it and hand its object to the parent
+\* after an action that completes the top frame: pop it and hand its object to the frame below
 Settle(h, stk) ==
     LET f == stk[Len(stk)]
+        rest == SubSeq(stk, 1, Len(stk) - 1)
     IN IF f.st /\ f.i = Len(Iter(h[f.src]))
-       THEN [stack |-> SubSeq(stk, 1, Len(stk) - 1), ret |-> f.dst]
-       ELSE [stack |-> stk, ret |-> 0]
+       THEN (IF rest = <<>> THEN rest ELSE [rest EXCEPT ![Len(rest)].rdy = Append(@, f.dst)])
+       ELSE stk
 
 \* RestoreState: __setstate__(state) - every attribute (flags of all three levels, priority, metadata,
 \* _func, ref_point, value, source file ...) except the child map
 RestoreState ==
-    /\ phase = "copying" /\ ret = 0 /\ status = "ok" /\ stack # <<>> /\ ~Restored(Top)
-    /\ StateFirst \/ Top.i = Len(Iter(heap[Top.src]))
+    /\ phase = "copying" /\ status = "ok" /\ stack # <<>> /\ ~Top.st /\ Top.rdy = <<>>
+    /\ StateFirst \/ Top.i = NKids(Top)
     /\ LET h2 == [heap EXCEPT ![Top.dst].n = heap[Top.src].n, ![Top.dst].attrs = TRUE]
            s  == Settle(h2, SetTop([Top EXCEPT !.st = TRUE]))
-       IN /\ heap' = h2 /\ stack' = s.stack /\ ret' = s.ret
-          /\ phase' = IF s.stack = <<>> THEN "copied" ELSE phase
+       IN /\ heap' = h2 /\ stack' = s
+          /\ phase' = IF s = <<>> THEN "copied" ELSE phase
     /\ last' = [a |-> "RestoreState", side |-> "copy", id |-> Top.dst]
     /\ UNCHANGED <<oroot, croot, proto, status, nmut, nedit, otree, fired, hist>>
 
 \* Attach(i): y.append(child) / y[key] = child through the normal mutators
 Attach ==
-    /\ phase = "copying" /\ ret # 0 /\ status = "ok" /\ stack # <<>>
+    /\ phase = "copying" /\ status = "ok" /\ stack # <<>> /\ MayAttach(Top)
     /\ LET f    == Top
+           ret  == Head(f.rdy)
            p    == heap[f.dst]
            key0 == Iter(heap[f.src])[f.i + 1][1]
            key  == IF IsList(p.n) THEN IKey(Len(p.py)) ELSE key0          \* list.py:95 set_child(len(self))
@@ -247,23 +255,23 @@ Attach ==
            adopted == IF p.attrs /\ AttachRederivesFlags THEN Adopt(ct, ChildKw(p.n), FALSE, PrNone) ELSE ct
            \* composed.py:37 value._propagate_implicit_values() (the child has its attributes in both protocols)
            ct2  == IF AttachRederivesFlags THEN Propagate(adopted) ELSE adopted
-           f2   == [f EXCEPT !.i = f.i + 1]
+           f2   == [f EXCEPT !.i = f.i + 1, !.rdy = Tail(f.rdy)]
        IN IF IsDict(p.n) /\ IsShadowKey(key) /\ ShadowKeyRaises
           THEN /\ status' = "ValueError" /\ phase' = "copied"              \* dict.py:28-29
                /\ fired' = fired \cup {"ShadowKeyRaises"}
-               /\ UNCHANGED <<heap, stack, ret>>
+               /\ UNCHANGED <<heap, stack>>
           ELSE IF IsDict(p.n) /\ IsUnderscoreKey(key) /\ UnderscoreBypass
           THEN \* dict.py:57-59: dict.__setitem__ only
                LET h2 == [heap EXCEPT ![f.dst].py = Append(@, <<key, ret>>)]
                    s  == Settle(h2, SetTop(f2))
-               IN /\ heap' = h2 /\ stack' = s.stack /\ ret' = s.ret
-                  /\ phase' = IF s.stack = <<>> THEN "copied" ELSE phase
+               IN /\ heap' = h2 /\ stack' = s
+                  /\ phase' = IF s = <<>> THEN "copied" ELSE phase
                   /\ fired' = fired \cup {"UnderscoreBypass"} /\ status' = status
           ELSE LET h1 == Store(heap, ret, ct2)
                    h2 == [h1 EXCEPT ![f.dst].kids = Append(@, <<key, ret>>), ![f.dst].py = Append(@, <<key, ret>>)]
                    s  == Settle(h2, SetTop(f2))
-               IN /\ heap' = h2 /\ stack' = s.stack /\ ret' = s.ret
-                  /\ phase' = IF s.stack = <<>> THEN "copied" ELSE phase
+               IN /\ heap' = h2 /\ stack' = s
+                  /\ phase' = IF s = <<>> THEN "copied" ELSE phase
                   /\ fired' = IF ct2 # ct THEN fired \cup {"AttachRederivesFlags"} ELSE fired
                   /\ status' = status
     /\ last' = [a |-> "Attach", side |-> "copy", id |-> Top.dst]
@@ -282,7 +290,7 @@ MutCommon(id, what) ==
     /\ Done /\ nmut < MaxMut /\ id \in Mutable
     /\ nmut' = nmut + 1
     /\ last' = [a |-> what, side |-> Side(id), id |-> id]
-    /\ UNCHANGED <<oroot, croot, proto, stack, ret, status, phase, nedit, otree, fired, hist>>
+    /\ UNCHANGED <<oroot, croot, proto, stack, status, phase, nedit, otree, fired, hist>>
 
 \* node.ayns.metadata['zz'] = 9
 MutMd(id) ==
